@@ -25,14 +25,20 @@ ASSUMPTIONS = ["gateway models transmit accepted frames in the order they were h
                "send() of a device-type command is exercised and recorded, not judged"]
 EXHAUSTIVE = {"quick": False, "thorough": False}
 REQUIRED_ANCHORS = {"all": ["runs", "interleavings_seen", "units_checked", "dt_adjacency_checked", "cancelled_callers",
-                            "raising_sequences", "lock_checked", "loss_runs", "drivers_tridonic", "drivers_hasseb", "drivers_luba", "drivers_sci"]}
+                            "raising_sequences", "lock_checked", "loss_runs", "dfs_runs", "drivers_tridonic", "drivers_hasseb", "drivers_luba", "drivers_sci"]}
 SHARD_TIMEOUT = {"quick": 600, "thorough": 3000}
 
 
 def plan(tier, seed):
     n = 800 if tier == "quick" else 6000
     parts = 4 if tier == "quick" else 8
-    return [{"driver": d, "part": p, "n": n // parts} for d in simlib.DRIVERS for p in range(parts)]
+    sh = [{"driver": d, "part": p, "n": n // parts} for d in simlib.DRIVERS for p in range(parts)]
+    # bounded-exhaustive walk over the first decisions of a fixed three-caller scenario
+    for d in simlib.DRIVERS:
+        for ct in ([0.03] if tier == "quick" else [0.004, 0.03, 0.07, 0.15]):
+            sh.append({"kind": "dfs", "driver": d, "depth": 5 if tier == "quick" else 9, "budget": 400 if tier == "quick" else 20000,
+                       "cancel_time": ct})
+    return sh
 
 
 class Boom(Exception):
@@ -69,11 +75,14 @@ def make_caller(r, driver, c):
             "start": r.choice([0, 0, 0.001, 0.01, 0.04, 0.1]), "repeat": r.choice([1, 1, 2]) if kind == "send" else 1}
 
 
-def run_case(driver, seed, part, i, res):
+def run_case(driver, seed, part, i, res, forced=None):
     from dali import sequences
     r = rng(seed, "C15", driver, part, i)
     n_callers = r.choice([2, 2, 3, 4])
     callers = [make_caller(r, driver, c) for c in range(n_callers)]
+    if forced is not None:
+        callers = forced["callers"]
+        n_callers = len(callers)
     # HID only: the device vanishes for a moment while callers (exceptions off) are retried transparently
     loss = driver in ("tridonic", "hasseb") and r.random() < 0.3
     if loss:
@@ -84,7 +93,12 @@ def run_case(driver, seed, part, i, res):
             elif spec["kind"] == "send-cancel":
                 spec["kind"] = "send"
         t_loss = r.choice([0.003, 0.01, 0.02, 0.03, 0.045, 0.06, 0.08, 0.1, 0.15])
-    picker = simlib.Picker(r)
+    picker = simlib.Picker(r) if forced is None else simlib.Picker(r, prefix=forced["prefix"], default="first")
+    if forced is not None:
+        loss = False
+        # start offsets are decisions of the exhaustive walk too
+        for spec in callers:
+            spec["start"] = picker.pick("start", [0, 0.003, 0.02, 0.06])
     sim = simlib.Sim(driver, picker, hid_kwargs={"reconnect_interval": 0.5} if loss else None)
     outcome = {}
     gens = {}
@@ -169,6 +183,9 @@ def run_case(driver, seed, part, i, res):
         if stalled:
             res.violation(f"C15/{driver}/caller-never-completes", "the simulation stalled: some caller is blocked for ever "
                           f"(outcomes so far {({c: repr(v) for c, v in outcome.items()})})", wit)
+            return
+        if simlib.detached(out):
+            res.inconclusive.append('harness detached: ' + str(out))
             return
         if out is not True:
             res.violation(f"C15/{driver}/crash", f"simulation ended with {out!r}", wit)
@@ -280,6 +297,42 @@ def run_case(driver, seed, part, i, res):
             res.sample({k: wit[k] for k in ("driver", "callers", "wire")})
     finally:
         sim.close()
+    return picker.log
+
+
+def dfs_shard(desc, seed, res):
+    """Stateless bounded-exhaustive walk over the first `depth` decisions (caller start offsets, gateway delays) of a
+    fixed small scenario: a device-type sequence against a single send, and a send-twice send."""
+    driver = desc["driver"]
+    r = rng(seed, "C15", "dfs", driver)
+    kq = "dtquery" if driver != "hasseb" else "query"
+    scenario = [
+        {"kind": "seq", "items": [("cmd", simlib.make_command(r, kq, 0, 0, driver)), ("cmd", simlib.make_command(r, "dttwice", 0, 1, driver)),
+                                  ("sleep", 0.01), ("cmd", simlib.make_command(r, "query", 0, 2, driver))],
+         "raise_at": None, "cancel_at": None, "cancel_time": None, "badclean": None, "start": 0, "repeat": 1},
+        {"kind": "send", "items": [("cmd", simlib.make_command(r, "dttwice", 1, 0, driver))],
+         "raise_at": None, "cancel_at": None, "cancel_time": None, "badclean": None, "start": 0, "repeat": 2},
+        {"kind": "send-cancel", "items": [("cmd", simlib.make_command(r, "query", 2, 0, driver))],
+         "raise_at": None, "cancel_at": None, "cancel_time": desc["cancel_time"], "badclean": None, "start": 0, "repeat": 1},
+    ]
+    depth, budget = desc["depth"], desc["budget"]
+    stack = [[]]
+    runs = 0
+    seen = set()
+    while stack and runs < budget:
+        prefix = stack.pop()
+        import copy
+        forced = {"callers": [dict(c, items=list(c["items"])) for c in scenario], "prefix": prefix}
+        log = run_case(driver, seed, "dfs", runs, res, forced=forced)
+        runs += 1
+        res.hit("dfs_runs")
+        if log is None:
+            continue
+        for d in range(len(prefix), min(len(log), depth)):
+            for alt in range(1, log[d][1]):
+                stack.append([x[2] for x in log[:d]] + [alt])
+    res.extra["dfs_exhausted_" + driver] = int(not stack)
+    res.add("dfs_prefixes_left", len(stack))
 
 
 def run_shard(desc, tier, seed):
@@ -289,6 +342,12 @@ def run_shard(desc, tier, seed):
         for w in desc["replay"]["witnesses"]:
             x = w["witness"]
             run_case(x["driver"], x["seed"], x["part"], x["case"], res)
+        return res
+    if desc.get("kind") == "dfs":
+        try:
+            dfs_shard(desc, seed, res)
+        except Exception as e:
+            res.inconclusive.append("harness error (dfs): " + short_tb(e))
         return res
     for i in range(desc["n"]):
         try:
